@@ -185,6 +185,37 @@ class Session:
 
         return self.run(thunk, world, monitor=monitor, det=det, admission_check=admission_check)
 
+    def compute_unoptimized(self, coll, world, det=None):
+        """Execute the query lowered without any optimization (what dask.compute(q) does)."""
+        import pandas as pd
+
+        def thunk(sch):
+            low = coll.expr.lower_completely()
+            parts = sch.get(dict(low.__dask_graph__()), low.__dask_keys__())
+            if isinstance(parts, list) and parts and isinstance(parts[0], (pd.DataFrame, pd.Series)):
+                return pd.concat(parts) if len(parts) > 1 else parts[0]
+            if isinstance(parts, list) and parts and isinstance(parts[0], pd.Index):
+                return parts[0].append(list(parts[1:])) if len(parts) > 1 else parts[0]
+            if isinstance(parts, list) and len(parts) == 1:
+                return parts[0]
+            return parts
+
+        return self.run(thunk, world, monitor=False, det=det, admission_check=False)
+
+    def reference_is_self_consistent(self, coll, ref_obs, world, det=None):
+        """True unless the query's optimized result differs from its own unoptimized result (then whatever a
+        differential oracle sees is rooted in the optimizer changing this query's meaning - property C01, not claimed -
+        and 'the reference' is not well defined)."""
+        un = self.compute_unoptimized(coll, world, det=det)
+        if un.cls != "ok":
+            return True  # cannot tell: do not suppress anything on that ground
+        a, b = dict(ref_obs), dict(un.obs)
+        a["kinds"] = b["kinds"] = None
+        a.pop("sorted_ok", None)
+        b.pop("sorted_ok", None)
+        eq, _ = obs_equal(a, b)
+        return eq
+
     def compute(self, coll, world, fuse=True, monitor=True, det=None, admission_check=True):
         return self.run(lambda sch: coll.compute(scheduler=sch.get, fuse=fuse), world, monitor=monitor, det=det,
                         admission_check=admission_check)
